@@ -89,6 +89,51 @@ def main():
             for kind, rx in KINDS:
                 for k, _ in enumerate(rx.finditer(body)):
                     sites.append((rel.split("/")[-1], fn, kind, k))
+    # ---- guards, not only sites: the order of the status codes each handler can answer with
+    def status_order(rel, fn):
+        src = strip(open(os.path.join(repo, rel)).read())
+        body = function_body(src, fn)
+        if body is None:
+            return None
+        return re.findall(r"StatusCode::(\w+)", body)
+    nm = "lib/src/server/services/node_management.rs"
+    orders = {fn: status_order(nm, fn) for fn in ["add_nodes", "add_node", "add_references", "add_reference"]}
+    if any(v is None for v in orders.values()):
+        print("node management handler not found"); return 1
+    # ---- events/operator.rs: the operand-count table of `evaluate` and the operand indices each operator reads
+    oprel = "lib/src/server/events/operator.rs"
+    opsrc = strip(open(os.path.join(repo, oprel)).read())
+    ev = function_body(opsrc, "evaluate")
+    if ev is None or "let min_operands" not in ev:
+        print("operator.rs: evaluate / min_operands table not found"); return 1
+    blk = ev[ev.index("let min_operands"):]
+    blk = blk[:blk.index("};")]
+    table, default = [], None
+    for m in re.finditer(r"((?:FilterOperator::\w+\s*\|?\s*)+|_)\s*=>\s*(\d+)", blk):
+        if m.group(1).strip() == "_":
+            default = int(m.group(2))
+        else:
+            for name in re.findall(r"FilterOperator::(\w+)", m.group(1)):
+                table.append((name, int(m.group(2))))
+    guard = re.search(r"if\s+operands\.len\(\)\s*<\s*min_operands\s*\{\s*return\s+Err", ev)
+    if default is None or not guard:
+        print("operator.rs: min_operands default arm or its guard not found"); return 1
+    # the dispatch: which function each operator is evaluated by
+    dispatch = re.findall(r"FilterOperator::(\w+)\s*=>\s*(\w+)\s*\(", ev[ev.index("};"):])
+    opfns = sorted(set(f for _, f in dispatch))
+    max_index, other_index = [], []
+    for fn in opfns:
+        body = function_body(opsrc, fn)
+        if body is None:
+            print(f"operator function {fn} not found"); return 1
+        consts = [int(x) for x in re.findall(r"operands\[(\d+)\]", body)]
+        others = [x.strip() for x in re.findall(r"operands\[([^\]]*)\]", body) if not x.strip().isdigit()]
+        max_index.append((fn, max(consts) if consts else 0))
+        other_index += [(fn, x) for x in others]
+    vo = function_body(opsrc, "value_of")
+    if vo is None:
+        print("operator.rs: value_of not found"); return 1
+    value_of_sites = [k for k, rx in KINDS for _ in rx.finditer(vo)]
     lines = ["-- GENERATED by tools/translate/c33_panic_sites.py from the repository source; do not edit",
              "namespace OpcuaVerif.C33", "",
              "/-- potential panic sites on the modelled node-management paths: (file, function, kind, ordinal) -/",
@@ -96,12 +141,30 @@ def main():
     lines += [f'  ("{a}", "{b}", "{c}", {d}),' for (a, b, c, d) in sites]
     if sites:
         lines[-1] = lines[-1].rstrip(",")
-    lines += ["]", "", "end OpcuaVerif.C33", ""]
+    lines += ["]", ""]
+    def lean_strs(xs):
+        return "[" + ", ".join(f'"{x}"' for x in xs) + "]"
+    lines += ["/-- status codes in the order they appear in each node-management handler -/"]
+    for fn, v in orders.items():
+        lines += [f"def statusOrder_{fn} : List String := {lean_strs(v)}"]
+    lines += ["", "/-- `evaluate`: operand count demanded per operator before dispatch (guarded by `operands.len() < min_operands`) -/",
+              "def minOperandsTable : List (String × Nat) := [" + ", ".join(f'("{a}", {b})' for a, b in table) + "]",
+              f"def minOperandsDefault : Nat := {default}",
+              "/-- `evaluate`: operator ↦ function that evaluates it -/",
+              "def operatorDispatch : List (String × String) := [" + ", ".join(f'("{a}", "{b}")' for a, b in dispatch) + "]",
+              "/-- operator function ↦ largest constant operand index it reads -/",
+              "def operatorMaxIndex : List (String × Nat) := [" + ", ".join(f'("{a}", {b})' for a, b in max_index) + "]",
+              "/-- operand index expressions that are not constants -/",
+              "def operatorOtherIndex : List (String × String) := [" + ", ".join(f'("{a}", "{b}")' for a, b in other_index) + "]",
+              "/-- potential panic sites left in `value_of` (kinds) -/",
+              f"def valueOfSites : List String := {lean_strs(value_of_sites)}",
+              "", "end OpcuaVerif.C33", ""]
     out = os.path.join(root, "lean/OpcuaVerif/Generated/C33Sites.lean")
     os.makedirs(os.path.dirname(out), exist_ok=True)
     text = "\n".join(lines)
     if not os.path.exists(out) or open(out).read() != text:
         open(out, "w").write(text)
+    print(f"{len(table)} min_operands rows, {len(dispatch)} dispatch rows, {len(max_index)} operator functions; ", end="")
     print(f"{len(sites)} potential panic sites in {sum(len(v) for v in SCOPE.values())} functions of {len(SCOPE)} files")
     return 0
 
